@@ -93,3 +93,44 @@ def run(ctx):
             else:
                 r.ok(rule2, key, '%s is returned before any mutating call on its path' % name, loc='%s:%s' % (b.loc.file, b.stmts(bi)[si][3] if not isinstance(b.stmts(bi)[si][3], dict) else b.stmts(bi)[si][3]['l']))
     r.floor(rule2, 'bad_returns', n, 12)
+    delete_result(ctx)
+
+
+def delete_result(ctx, rule='delete-result'):
+    """AddressSpace::delete answers true whenever the node was removed from the node map (NodeManagementService::delete_node
+    turns `false` into BadNodeIdUnknown): every definition of the return value other than the constant `true` must lie under
+    `removed_node` being None, and delete_node maps exactly true -> Good"""
+    r, db = ctx.r, ctx.db
+    b = db.body('server::address_space::address_space::AddressSpace::delete')
+    if b is None:
+        r.lost(rule, 'AddressSpace::delete', 'not found'); return
+    F = ctx.facts(b)
+    rm = [c for c in b.calls() if c.callee.endswith('HashMap::remove') and fmt_sym(b, F.sym_operand(c.args[0])).endswith('.node_map')]
+    if len(rm) != 1:
+        r.lost(rule, 'node_map.remove', 'removal from node_map not found'); return
+    n = 0; bad = []
+    def value_defs(local, depth=0):
+        out = []
+        for d in b.defs().get(local, []):
+            if d[0] == 'stmt' and d[3][0] == 'use' and d[3][1][0] in ('cp', 'mv') and not d[3][1][1][1] and depth < 3 and len(b.defs().get(d[3][1][1][0], [])) > 1:
+                out += value_defs(d[3][1][1][0], depth + 1)
+            else:
+                out.append(d)
+        return out
+    for d in b.defs().get(0, []):
+        n += 1
+        if d[0] == 'stmt' and d[3][0] == 'use' and d[3][1][0] == 'k' and d[3][1][1] in ('1', 'true'):
+            continue
+        bb = d[1]
+        si = d[2] if d[0] == 'stmt' else None
+        lits = [fmt_lit(b, l) for l, e in (F.literals_at(bb, si) if si is not None else F.literals_at(bb))]
+        absent = any(re.search(r'is_some\(&(removed_node\(_\d+\)|HashMap::remove\(.*\.node_map, .*\))\) == False$|(removed_node\(_\d+\)|HashMap::remove\(.*\.node_map, .*\)) is (None|not Some)$', x) for x in lits)
+        if not absent:
+            bad.append(fmt_sym(b, F.sym_rvalue(d[3], 0, bb))[:80] if d[0] == 'stmt' else d[2].callee.rsplit('::', 1)[-1])
+    if bad:
+        r.fail(rule, 'AddressSpace::delete:result', 'AddressSpace::delete can answer %s on a path where the node was removed from node_map: DeleteNodes then reports '
+               'BadNodeIdUnknown for a node it deleted' % ' / '.join(bad[:2]), loc=b.loc)
+    else:
+        r.ok(rule, 'AddressSpace::delete:result', 'every non-constant result of AddressSpace::delete lies under `removed_node is None` (removed => true)', loc=b.loc)
+    r.count('delete_result_defs', n)
+    r.floor(rule, 'delete_result_defs', n, 2)
